@@ -235,7 +235,7 @@ func c03RandInt(r *rand.Rand) string {
 	// around a power of two, or random digits
 	if r.Intn(2) == 0 {
 		w := []uint{7, 8, 15, 16, 31, 32, 63, 64}[r.Intn(8)]
-		v := new(big2).pow2(w)
+		v := new(c03Big).pow2(w)
 		d := int64(r.Intn(5) - 2)
 		s := v.addSmall(d)
 		if r.Intn(2) == 0 {
@@ -253,10 +253,10 @@ func c03RandInt(r *rand.Rand) string {
 }
 
 // tiny decimal helper (2^w + d as text) without importing math/big twice
-type big2 struct{}
+type c03Big struct{}
 
-func (*big2) pow2(w uint) *big2v {
-	v := &big2v{digits: []int{1}}
+func (*c03Big) pow2(w uint) *c03BigV {
+	v := &c03BigV{digits: []int{1}}
 	for i := uint(0); i < w; i++ {
 		carry := 0
 		for j := range v.digits {
@@ -271,9 +271,9 @@ func (*big2) pow2(w uint) *big2v {
 	return v
 }
 
-type big2v struct{ digits []int } // least significant first
+type c03BigV struct{ digits []int } // least significant first
 
-func (v *big2v) addSmall(d int64) string {
+func (v *c03BigV) addSmall(d int64) string {
 	ds := append([]int{}, v.digits...)
 	ds[0] += int(d)
 	for i := 0; i < len(ds); i++ {
